@@ -13,7 +13,9 @@ table declared in any order and at any moment of the construction: mc/c03_model.
 mc/c03_model.q_final), C6 (printed words of directions in every letter case; two files handled one after the other in
 one process), D4 (divisions changes at every place of a two-measure part: a later measure whose only entry of the
 divisions table lies in its middle, entries at the barline and in the middle, ...; the independent reader converts every
-backup/forward/duration with the divisions value in force).
+backup/forward/duration with the divisions value in force), N1/N2 (number forms: the numbers handed to the construction
+API - voice, staff, times, octave/alter, dots and tuplet ratios, measure/ending/group numbers, signatures, clef, fingering,
+tempo, quarter durations - as numpy scalars instead of Python ints, mc/c03_model.number_form; the score is the same score).
 
 Clauses: export-total / import-total / reexport-total (no exception), roundtrip-<attribute group>
 (load(save(s)) == s on the statement's attributes), file-denotes-sounding-notes (independent reader),
@@ -64,6 +66,10 @@ ASSUMPTIONS = [
     "nothing starts or ends; a fermata on the right barline of a measure that is followed by another measure; plain "
     "score.Words objects; X4 (trigger redundant_divisions_entry, proposed_fixes/C03-s-redundant-divisions-entry.diff): a "
     "divisions table with an entry that repeats the value before it",
+    "number forms (N1/N2): a score built through the public score API from numbers that are numpy integer scalars "
+    "(numpy.int64, numpy.int32: what the rows of a note array or any numpy computation yield) is the same score as the one "
+    "built from the equal Python ints, so all clauses apply to it unchanged and the loaded score is compared by value "
+    "(numpy.int64(2) == 2); unsigned and floating types are not generated (their arithmetic differs from int arithmetic)",
     "lxml parsing/serialisation is trusted; the independent reader pairs ties by pitch and time",
 ]
 CHUNK = 40
@@ -361,6 +367,24 @@ def spaces(tier, seed):
                     btxt + "key/time/clef changes at every grid position of two 2/4 measures, singly and in pairs, three cores"))
     sp.append(Space("E-parts-and-groups", G.gen_E_structure, True, "all forests of <=3 parts with groups nested <=2 deep, two attribute variants"))
     sp.append(Space("F-repeats-endings", G.gen_F_repeats, True, "three 1/4 measures: disjoint repeats x (no ending | one ending | endings 1+2), two cores"))
+    n0 = ("number forms: the Python ints of a number family are handed to the construction API as numpy scalars of the same "
+          "value (families: voice, staff of notes/clefs/directions, start and end times given to Part.add, octave and alter, "
+          "dots and tuplet ratio of symbolic durations and Tuplets, measure number, time signature, key signature fifths, clef "
+          "line and octave change, fingering, tempo bpm, ending number, quarter durations and their times, part group number; "
+          "types numpy.int64 and numpy.int32); ")
+    n1 = (n0 + "one 2/4 measure (4 units of an eighth), all sets of <=2 events: span x (voice, staff) in {(1,1),(2,1),(2,2),(3,2)} "
+          "x {note, rest}; every family that has a value in the score alone and all of them together x both types")
+    if q:
+        sp.append(Space("N1-number-forms-core-block", G.stride(G.gen_N_cores, 16, seed % 16), True,
+                        "block %d of 16 (index stride) of: " % (seed % 16) + n1))
+    else:
+        sp.append(Space("N1-number-forms-core", G.gen_N_cores, True, n1))
+    sp.append(Space("N2-number-forms-features", G.gen_N_features, True,
+                    n0 + "five fixed cores (two staves with voices 1-3, unequal chord, grace note, fingering, tempo mark, staff-2 "
+                    "dynamics, key and clef change / triplets with two brackets against a second voice / divisions change at a "
+                    "barline with a tie over it, repeat and ending / pickup measure with voices 2 and 4 only, dotted and unpitched "
+                    "note, flat key, octave clef, wedge, fermata / three parts in nested numbered groups); every family that has a "
+                    "value in the score alone, every pair of families and all of them together x both types"))
     sp.append(Space("G-file-io", G.gen_G_fileio, True, "a sample of E and C2 scores written to a path / a binary file object and loaded from a path"))
     if not q:
         sp.append(Space("A1-core-1measure-4", lambda: G.gen_A(one, 4, staff_is_voice=True, nmin=4), True,
